@@ -343,18 +343,34 @@ def run_c18(rep, tier):
         for (k, n), ref in zip(VARIANTS, refs):
             loads.append([1, 1, 1, 1 if expected_errs(k) else 0, ws.cid(ref) if has_output(k) else 0])
         long_stale = (refs[2] or "") + "\n// a longer, stale tail\nfunc staleHelper() int { return 42 }\n" * 3
-        clobbers = [refs[0], refs[1], refs[2], GARBAGE % d, NONCOMPILING % d, long_stale, (GARBAGE % d) * 6]
+        # a generated file somebody scribbled a note into / that an earlier run gave a header: comment lines above the marker
+        noted = ["// NOTE(ops): regenerate before release\n// second line of the note\n\n" + (r or "") for r in (refs[0], refs[1], refs[2]) if r]
+        clobbers = [refs[0], refs[1], refs[2], GARBAGE % d, NONCOMPILING % d, long_stale, (GARBAGE % d) * 6] + noted
         reqs, meta = [], []
-        for h in range(nh):
-            v = rng.randrange(len(VARIANTS))
+        # scripted histories first: every kind of damaged / annotated old output directly followed by gen on every
+        # variant that has output (the random histories reach these combinations only now and then)
+        scripted = []
+        for vi, (k, n) in enumerate(VARIANTS):
+            if has_output(k):
+                for ci in range(len(clobbers)):
+                    scripted.append((vi, None, ["clobber:%d" % ci, "gen", "diff"]))
+                scripted.append((vi, noted[0], ["gen", "gen"]))
+        rng.shuffle(scripted)
+        scripted = scripted[:(8 if tier == "quick" else len(scripted))]
+        for h in range(nh + len(scripted)):
+            plan = scripted[h] if h < len(scripted) else None
+            v = plan[0] if plan else rng.randrange(len(VARIANTS))
             ws.set_variant(d, *VARIANTS[v])
-            init = rng.choice([None, refs[0], refs[2], GARBAGE % d, long_stale])
+            init = plan[1] if plan else rng.choice([None, refs[0], refs[2], GARBAGE % d, long_stale] + noted[:2])
             ws.write(d, init)
             ops, exits, enc = [], [], []
             cur = v
             trace = []
-            for step in range(rng.randint(3, maxlen)):
-                op = rng.choice(["switch", "gen", "gen", "diff", "check", "delete", "clobber"])
+            for step in range(len(plan[2]) if plan else rng.randint(3, maxlen)):
+                op = plan[2][step] if plan else rng.choice(["switch", "gen", "gen", "diff", "check", "delete", "clobber"])
+                pick = None
+                if op.startswith("clobber:"):
+                    op, pick = "clobber", clobbers[int(op.split(":")[1])]
                 before_file = ws.read(d)
                 snap_before = ws.snapshot()
                 if op == "switch":
@@ -367,7 +383,7 @@ def run_c18(rep, tier):
                     enc += [3, 1]
                     exits.append("-")
                 elif op == "clobber":
-                    c = rng.choice(clobbers)
+                    c = pick if pick is not None else rng.choice(clobbers)
                     ws.write(d, c)
                     enc += [4, 1, ws.cid(c)]
                     exits.append("-")
